@@ -439,8 +439,9 @@ def _walk(ctx, run, f):
     wraps = [(b, i) for b, i in flow.all_events(f) for lhs, var, op, rhs in flow.stores(f, i)
              if lhs is not None and f.exprs[ex.skip(f, lhs)]["k"] == "ref" and rhs is not None and ex.const(f, rhs) == 1
              and loops.innermost(f, b) is not None and f.exprs[ex.skip(f, lhs)].get("t") in ("int", "vbi_bool")
-             and _is_flag(f, f.exprs[ex.skip(f, lhs)]["name"])]
-    run.floor("wrap-around sites in the page walk", len(wraps), 2)
+             and _is_flag(f, f.exprs[ex.skip(f, lhs)]["name"]) and not f.exprs[i].get("inl_ret")]
+    # (a helper that reports "go on" through its result leaves `result = TRUE` behind when it is inlined: not a wrap flag)
+    run.floor("wrap-around sites in the page walk", len(wraps), 1)
     for b, i in wraps:
         name = f.exprs[ex.skip(f, flow.stores(f, i)[0][0])]["name"]
         ok = any(a.rel == "==" and a.R is not None and a.R.const == 0 and name in a.L.locals and not a.L.fields for a in atoms.atoms_at(f, i))
